@@ -604,9 +604,179 @@ def alias_phase(chk, rng, n):
     return stats
 
 
+CALL_SITE_KINDS = ["choice", "jump", "choice-in-if", "jump-in-if", "choice-in-for", "jump-in-for"]
+
+
+def _call_site_story(site, call, sig, shown):
+    """(source, ops): a story whose only call of T(sig) is `call`, written at a call site of kind `site`, and the
+    history that makes the call; T shows the parameters `shown` separated by blanks."""
+    body = {"choice": f"+ [Go] -> {call}", "jump": f"-> {call}",
+            "choice-in-if": f"@if True:\n    + [Go] -> {call}\n@endif",
+            "jump-in-if": f"@if True:\n    Text\n    -> {call}\n@endif",
+            "choice-in-for": f"@for i in [1]:\n    + [Go] -> {call}\n@endfor",
+            "jump-in-for": f"@for i in [1]:\n    -> {call}\n@endfor"}[site]
+    show = " ".join("{" + nm + "}" for nm in shown)
+    target = f":: T({sig})\nT shows {show} end\n+ [Back] -> Start\n"
+    if site.startswith("jump"):
+        return f":: Start\n+ [In] -> Mid\n\n:: Mid\nMid text\n{body}\n\n{target}", [("choose", 0)]
+    return f":: Start\nStart text\n{body}\n\n{target}", [("choose", 0)]
+
+
+def _python_call(sig, names, args):
+    """What Python itself does with `T(args)` for `def T(sig)`: ('ok', [values in parameter order]) or
+    ('error', exception class name) -- CPython is the oracle, nothing of bardic is involved."""
+    ns = {}
+    try:
+        exec(f"def T({sig}): return [{', '.join(names)}]", ns)
+        return ("ok", eval(compile(f"T({args})", "<call>", "eval"), ns))
+    except (SyntaxError, TypeError) as e:
+        return ("error", type(e).__name__)
+
+
+def repeated_keyword_family(chk, rng, n):
+    """Fix F07e.  A call that is valid by Python's rules except that ONE keyword is written twice (`T(1, q=2, q=3)`):
+    CPython refuses to compile such a call ("keyword argument repeated"), so the story compiler must refuse it too
+    (before the fix ast.parse let it through, the validator's dict hid the repetition and the engine bound the last
+    value).  Control: the same call without the repetition must compile and show the values Python binds."""
+    stats = {"cases": 0, "rejected": 0, "accepted": 0, "controls_ok": 0, "sites": {}}
+    for _ in range(n):
+        k = rng.randint(1, 4)
+        names = ["p", "q", "r", "s"][:k]
+        nreq = rng.randint(0, k)
+        sig = ", ".join(nm if i < nreq else f"{nm}={10 + i}" for i, nm in enumerate(names))
+        npos = rng.randint(0, k - 1)
+        kws = [nm for i, nm in enumerate(names) if i >= npos and (i < nreq or rng.random() < 0.6)]
+        if not kws:
+            kws = [names[-1]]
+        order = kws[:]
+        rng.shuffle(order)
+        vals = {nm: rng.randint(0, 9) for nm in order}
+        good = [str(rng.randint(0, 9)) for _ in range(npos)] + [f"{nm}={vals[nm]}" for nm in order]
+        rep = rng.choice(order)
+        where = rng.choice(["adjacent", "last", "first-keyword"])
+        again = f"{rep}={rng.choice([vals[rep], vals[rep] + 1, vals[rep] + 7])}"      # the same value again, or another
+        kwpart = good[npos:]
+        at = {"adjacent": kwpart.index(f"{rep}={vals[rep]}") + 1, "last": len(kwpart), "first-keyword": 0}[where]
+        bad = good[:npos] + kwpart[:at] + [again] + kwpart[at:]
+        site = rng.choice(CALL_SITE_KINDS)
+        stats["sites"][site] = stats["sites"].get(site, 0) + 1
+        good_args, bad_args = ", ".join(good), ", ".join(bad)
+        py_good, py_bad = _python_call(sig, names, good_args), _python_call(sig, names, bad_args)
+        if py_good[0] != "ok" or py_bad != ("error", "SyntaxError"):
+            raise AssertionError(f"generator: {sig!r} {good_args!r} {bad_args!r} -> {py_good} {py_bad}")
+        stats["cases"] += 1
+        chk.count(("repeated-keyword", sig, bad_args, site), True)
+        # the call with the repeated keyword
+        src, ops = _call_site_story(site, f"T({bad_args})", sig, names)
+        try:
+            story = R.compile_story(src)
+        except (SyntaxError, ValueError):
+            stats["rejected"] += 1
+        else:
+            stats["accepted"] += 1
+            recs, _ = R.run_history(story, ops)
+            v = recs[-1]["view"]
+            line = next((l for l in (v["content"] if v else "").split("\n") if l.startswith("T shows")), recs[-1]["obs"])
+            chk.report(f"invalid-call-accepted-by-compiler:repeated-keyword:site={site}",
+                       f"'T({bad_args})' repeats the keyword '{rep}' (CPython: SyntaxError 'keyword argument repeated') but the "
+                       f"story compiles; playing it gives {line!r}",
+                       {"story_source": src, "ops": ops, "signature": sig, "args": bad_args})
+        # control: without the repetition
+        src, ops = _call_site_story(site, f"T({good_args})", sig, names)
+        try:
+            story = R.compile_story(src)
+        except (SyntaxError, ValueError):
+            chk.report(f"valid-call-rejected-by-compiler:site={site}",
+                       f"'T({good_args})' is a valid Python call of T({sig}) but the story does not compile",
+                       {"story_source": src, "signature": sig, "args": good_args})
+            continue
+        recs, _ = R.run_history(story, ops)
+        v = recs[-1]["view"]
+        want = "T shows " + " ".join(str(x) for x in py_good[1]) + " end"
+        if recs[-1]["obs"][0] != "ok" or v is None or want not in v["content"].split("\n"):
+            chk.report(f"compiled-call-binds-unlike-python:site={site}",
+                       f"'T({good_args})' against T({sig}): Python binds {py_good[1]}, the engine shows "
+                       f"{[l for l in (v['content'] if v else '').split(chr(10)) if l.startswith('T shows')] or recs[-1]['obs']}",
+                       {"story_source": src, "ops": ops, "signature": sig, "args": good_args})
+        else:
+            stats["controls_ok"] += 1
+    return stats
+
+
+RESERVED_NAMES = ["arg_0", "arg_1", "arg_2", "arg_12", "arg_100"]
+# near misses: not of the form arg_<digits>, so never a key under which the engine files a positional argument
+SIMILAR_NAMES = ["arg_x", "arg", "my_arg_0", "arg_0x", "arg_", "_arg_0", "Arg_0", "ARG_1", "arg__0", "arg_0_", "xarg_0",
+                 "args_0", "arg0", "arg_o", "arg_1a"]
+
+
+def reserved_name_family(chk, rng, n):
+    """Fix F07d.  _parse_directive_args files positional argument number i under the key arg_<i> in the same dict as the
+    keyword arguments, so a parameter of exactly such a name is mistaken for a positional argument: the compiler must
+    refuse a header that has one (any position, with or without a default).  Names that only look similar must still
+    be accepted AND bind as Python binds them (CPython's own `def T(sig)` / `T(args)` is the oracle)."""
+    stats = {"reserved": {"cases": 0, "rejected": 0, "accepted": 0}, "similar": {"cases": 0, "compiled": 0, "bound_ok": 0}}
+    others = ["p", "q", "r"]
+    for j in range(n):
+        reserved = j % 2 == 0
+        name = rng.choice(RESERVED_NAMES if reserved else SIMILAR_NAMES)
+        assert reserved == any(name == f"arg_{i}" for i in range(1000))
+        k = rng.randint(1, 4)
+        at = rng.randrange(k)
+        names = others[:at] + [name] + others[at:k - 1]
+        nreq = rng.randint(0, k)
+        optional = at >= nreq
+        sig = ", ".join(nm if i < nreq else f"{nm}={20 + i}" for i, nm in enumerate(names))
+        # a call that is valid by Python's rules: some positional values, the rest of the required ones by keyword
+        npos = rng.randint(0, k)
+        kws = [nm for i, nm in enumerate(names) if i >= npos and (i < nreq or rng.random() < 0.5)]
+        rng.shuffle(kws)
+        args = ", ".join([str(rng.randint(1, 9)) for _ in range(npos)] + [f"{nm}={rng.randint(1, 9)}" for nm in kws])
+        py = _python_call(sig, names, args)
+        if py[0] != "ok":
+            raise AssertionError(f"generator: {sig!r} {args!r} -> {py}")
+        site = rng.choice(CALL_SITE_KINDS)
+        src, ops = _call_site_story(site, f"T({args})", sig, names)
+        place = "only" if k == 1 else "first" if at == 0 else "last" if at == k - 1 else "middle"
+        kind = "optional" if optional else "required"
+        chk.count(("parameter-name", name, place, kind, args, site), True)
+        cls = stats["reserved" if reserved else "similar"]
+        cls["cases"] += 1
+        try:
+            story = R.compile_story(src)
+        except (SyntaxError, ValueError) as e:
+            if reserved:
+                cls["rejected"] += 1
+            else:
+                chk.report(f"similar-parameter-name-rejected:{kind}",
+                           f"a header with the parameter '{name}' (not of the form arg_<digits>) does not compile: "
+                           f"{str(e).splitlines()[0][:120]}", {"story_source": src, "signature": sig})
+            continue
+        recs, _ = R.run_history(story, ops)
+        v = recs[-1]["view"]
+        shown = [l for l in (v["content"] if v else "").split("\n") if l.startswith("T shows")] or [repr(recs[-1]["obs"])]
+        want = "T shows " + " ".join(str(x) for x in py[1]) + " end"
+        if reserved:
+            cls["accepted"] += 1
+            chk.report(f"reserved-parameter-name-accepted:{kind}",
+                       f"the header ':: T({sig})' has a parameter named like the engine's positional marker '{name}' and "
+                       f"compiles; 'T({args})': Python binds {py[1]}, the engine shows {shown[0]!r}",
+                       {"story_source": src, "ops": ops, "signature": sig, "args": args})
+            continue
+        cls["compiled"] += 1
+        if shown[0] != want:
+            chk.report(f"compiled-call-binds-unlike-python:site={site}",
+                       f"'T({args})' against T({sig}): Python binds {py[1]}, the engine shows {shown[0]!r}",
+                       {"story_source": src, "ops": ops, "signature": sig, "args": args})
+        else:
+            cls["bound_ok"] += 1
+    return stats
+
+
 def call_shape_phase(chk, rng, n):
     """C07 last clause: a story that compiles never fails at run time for a missing, surplus, unknown or doubly
-    supplied argument.  Random signatures x call shapes x call-site kinds (top-level / nested choice or jump)."""
+    supplied argument.  Random signatures x call shapes x call-site kinds (top-level / nested choice or jump).
+    Then the initial-passage family, and the two families of fixes F07e / F07d (a repeated keyword, a parameter named
+    like a positional marker)."""
     stats = {"compiled": 0, "rejected": 0, "ran_ok": 0, "sites": {}}
     for _ in range(n):
         k = rng.randint(1, 4)
@@ -696,6 +866,13 @@ def call_shape_phase(chk, rng, n):
         else:
             stats["initial"]["started"] += 1
         chk.count(("initial", how, sig), True)
+    # fixes F07e / F07d.  Drawn from a generator split off chk.rng whose state is put back afterwards, so that the case
+    # streams of the families above and of the main loop stay what they were for every seed.
+    saved = rng.getstate()
+    r2 = random.Random(rng.getrandbits(64))
+    rng.setstate(saved)
+    stats["repeated_keyword"] = repeated_keyword_family(chk, r2, max(40, n // 3))
+    stats["reserved_names"] = reserved_name_family(chk, r2, max(60, n // 2))
     return stats
 
 
